@@ -232,7 +232,8 @@ def _shard_main(argv: list[str]) -> int:
             # a finding, not a shortcoming of the run (the workloads do catch what the API documents)
             res.violation(f"shard-aborted-by-exception-from-execnet:{type(e).__name__}",
                           f"{type(e).__name__}: {str(e)[:300]} at {os.path.basename(tb[-1].filename)}:{tb[-1].lineno} in {tb[-1].name}; "
-                          f"called from {os.path.basename(tb[-2].filename) if len(tb) > 1 else '?'}:{tb[-2].lineno if len(tb) > 1 else '?'}")
+                          f"called from {os.path.basename(tb[-2].filename) if len(tb) > 1 else '?'}:{tb[-2].lineno if len(tb) > 1 else '?'}; "
+                          f"stack: {' <- '.join(f'{os.path.basename(f.filename)}:{f.lineno}:{f.name}' for f in reversed(tb[-8:]))}")
         else:
             res.inconclusive.append("shard crashed: " + traceback.format_exc()[-3000:])
         res = res.dump()
